@@ -2173,11 +2173,16 @@ class ShortcutNode(ListNode):
             base = carried
             first_val_str = ""
         elif len(nodes) == 2:
-            base = nodes[0].value
+            base = nodes[0]._print_value
             first_val_str = nodes[0].format()
         else:
             return None
-        product = nodes[-1].value
+        product = nodes[-1]._print_value
+        # an entry converted to an enumeration (LAT) is written as its number
+        if isinstance(base, enum.Enum):
+            base = base.value
+        if isinstance(product, enum.Enum):
+            product = product.value
         if base is None or product is None or base == 0:
             return None
         if len(self._original) > 0 and "M" in self._original[-1]:
